@@ -11,7 +11,7 @@ SPEC = {
         "C08_table_lists_satisfy_premises", "C08_nonvacuous",
         "C08_offline_runs_no_online_check", "C08_offline_keeps_offline_checks", "C08_checks_run_in_declared_states",
         "C08_states_table", "C08_offline_flag_end_to_end", "C08_offline_nonvacuous"]},
-    "harness_args": lambda tier: ["C08", "--n", 32 if tier == "quick" else 450],
+    "harness_args": lambda tier: ["C08", "--n", 24 if tier == "quick" else 450],
     "search_args": lambda tier: ["C08", "--n", 150],
     "level": "proof",
     "trusted_base": [
@@ -19,7 +19,7 @@ SPEC = {
         "translator (/verif/translator core.go, go/ast): CheckNames, OnlineChecks, Reporter()/Meta() per check type, every "
         "newParsedRule/baseParsedRule registration site of parsed_rule.go -> Gen/Tables.v (regenerated every run, fails closed)",
         "correspondence: real config.Load + SetDisabledChecks + DisableOnlineChecks + GetChecksForEntry (overlay build of the current tree) "
-        "vs Model/CheckSwitch.v on generated configs x flags x entries (real finder) x command; each live check object is also compared with the generated tables",
+        "vs Model/CheckSwitch.v on generated configs (incl. the identical check in 2-3 blocks with different selectors) x flags x entries (real finder) x command; each live check object is also compared with the generated tables",
         "inputs of the model not modelled here: isMatch verdicts (C09), comment parsing (C07/C10), regexp engine (oracle table computed with Go's regexp), HCL decoding",
         "harness export harness/shared_config/export_config.go repeats the construction half of GetChecksForEntry (ErrorCheck | baseRules ++ parseRule) to expose the parsed rules",
         "oracle on the real binary, fixed bases: pint lint --json runs (and one pint ci repository for rule/dependency) that differ from an all-kinds baseline by one "
